@@ -135,6 +135,11 @@ def run(ctx):
         lf = list_form(gen.synth_case(rng, cell, nseg=rng.choice([2, 3, 4])))
         if lf is not None:
             bases.append((lf, [], {'cell': list(cell), 'list_form': True}, 300))
+    # feature combinations that are detected from the mere presence of their keys (add-ons, S-DAC-GT, both): key order varies
+    # under permutation
+    for i in range(ctx.pick(12, 90)):
+        cell = cells[(i * 5) % len(cells)]
+        bases.append((gen.synth_case(rng, cell, addons=i % 3 != 1, sdac=i % 3 != 0), [], {'cell': list(cell), 'features': 'addons/sdac'}, 300))
     slow = gen.grid_cells(res_models=(1, 2))
     rng.shuffle(slow)
     for i in range(ctx.pick(4, 60)):
